@@ -618,7 +618,11 @@ class Interp:
             ty, text = e[1], e[2]
             self.feat("lit:" + ty)
             if ty == "INT":
-                return refnum.chk(V("i", int(text)))
+                iv = int(text)
+                if not (refnum.I64[0] <= iv <= refnum.I64[1]):
+                    self.feat("lit:int-beyond-int64")
+                    return refnum.BigV("i", iv)
+                return refnum.chk(V("i", iv))
             if ty == "FLOAT":
                 return refnum.chk(V("f", float(text)))
             if ty == "COMPLEX":
@@ -638,6 +642,10 @@ class Interp:
             self.need_arith(v)
             if isinstance(v, Sym):
                 return Sym(("neg", v.tree))
+            if v.big:
+                # the sign of a literal: -9223372036854775808 is the smallest 64-bit integer
+                nv = -v.v
+                return V("i", nv) if refnum.I64[0] <= nv <= refnum.I64[1] else refnum.BigV("i", nv)
             return refnum.neg(v)
         if k == "bin":
             op = e[1]
@@ -687,7 +695,7 @@ class Interp:
             arr = self.env[name]
             if not isinstance(arr, Arr):
                 raise OOD("index into non-array")
-            if not (isinstance(i, V) and i.k == "i"):
+            if not (isinstance(i, V) and i.k == "i") or i.big:
                 raise OOD("non-integer index")
             flat = arr.flat()
             if not (0 <= i.v < len(flat)):
@@ -820,6 +828,8 @@ class Interp:
             return
         if not isinstance(v, V):
             raise OOD("non-scalar initialiser")
+        if v.big:
+            raise OOD("int64 range")
         want = KIND_OF_TYPE[vartype]
         if want in "if" and v.k == "c":
             raise IllFormed("complex-to-real", name, first.line, first.col)
@@ -881,6 +891,8 @@ class Interp:
                         raise OOD("symbolic expression (not a bare parameter) as array element")
                     if not (isinstance(v, V) and v.k in "ifc"):
                         raise OOD("non-numeric array element")
+                    if v.big:
+                        raise OOD("int64 range")
                     if want in "if" and v.k == "c":
                         raise IllFormed("complex-to-real", name, first.line, first.col)
                     if want == "i" and v.k != "i":
@@ -906,6 +918,8 @@ class Interp:
         self.feat("op:measure" if optok.type == "MEASURE" else "op:gate")
         for m in modes:
             v = self.ev(m)
+            if isinstance(v, V) and v.big:
+                raise OOD("int64 range")
             if isinstance(v, V) and v.k == "i":
                 mvals.append(v.v)
             elif isinstance(v, V) and v.k == "b":
